@@ -178,7 +178,15 @@ fn handle_fn(repo: &str, req: &Value, global: &Value) -> Result<Value, String> {
     let (l0, l1) = span_lines(&f.to_token_stream());
     let original = f.to_token_stream().to_string();
     let mut counts = Counts::new();
-    let cfg = rules::Config::from_json(req, global)?;
+    let mut cfg = rules::Config::from_json(req, global)?;
+    // R23: expression-bodied iterator helpers of the same file that are inlined at their call sites
+    if let Some(names) = req["inline_iters"].as_array() {
+        for n in names {
+            let n = n.as_str().ok_or("bad recipe: inline_iters")?;
+            let (hf, _) = find_fn(&ast, None, None, n).ok_or_else(|| format!("lost anchor: helper {} not found in {}", n, file))?;
+            cfg.inline_fns.insert(n.to_string(), hf);
+        }
+    }
     if let Some(sh) = shell.as_mut() {
         rules::apply_to_shell(sh, &cfg, &mut counts);
     }
